@@ -48,6 +48,10 @@ pub struct Scenario {
     /// pre-existing files: path relative to the world root → bytes
     pub preexisting: Vec<(String, String)>,
     pub platform_present: bool,
+    /// Some(name): the started executable file itself is called `detect` / `build` (hard-link
+    /// packaging) although argv[0] says something else
+    #[serde(default)]
+    pub exe_file_name: Option<String>,
 }
 
 #[derive(Clone, Debug, PartialEq)]
@@ -228,11 +232,13 @@ pub fn generate(seed: u64) -> Scenario {
             store: r.bool().then(|| gen_table(&mut r, 0)),
             build_sboms: if r.bool() { gen_sbom_list(&mut r) } else { Vec::new() },
             launch_sboms: if r.bool() { gen_sbom_list(&mut r) } else { Vec::new() },
+            launch_sboms_first: r.bool(),
         },
         plan_in: InputKind::Valid,
         store_in: if r.bool() { InputKind::Valid } else { InputKind::Missing },
         preexisting: Vec::new(),
         platform_present: r.chance(7, 8),
+        exe_file_name: None,
     };
     if r.chance(1, 12) {
         if let Some(p) = s.build.launch.as_mut().and_then(|l| l.processes.first_mut()) {
@@ -242,8 +248,12 @@ pub fn generate(seed: u64) -> Scenario {
     for _ in 0..deviations {
         match r.below(9) {
             0 => {
-                s.arg0 = (*r.pick(&["detect.sh", "Detect", "detectx", "xbuild", "simbp", "launch", "", "BUILD", "bin/main"]))
+                s.arg0 = (*r.pick(&["detect.sh", "Detect", "detectx", "xbuild", "simbp", "launch", "", "BUILD", "bin/main", "analyze", "bin/compile"]))
                     .to_string();
+                // the file behind that name may well be the one called detect / build
+                if r.bool() {
+                    s.exe_file_name = Some(if s.build_phase { "build".into() } else { "detect".into() });
+                }
             }
             1 => {
                 let wrong: Vec<usize> = (0..6).filter(|n| *n != s.nargs).collect();
@@ -380,6 +390,7 @@ pub fn execute_with(
         env,
         cwd: d.app.clone(),
         shim_plan,
+        exe_file_name: s.exe_file_name.clone(),
     };
     let script_path = marker_dir.map_or_else(|| root.join("script.json"), |m| m.join("script.json"));
     let result = run_phase(&inv, &script, &script_path)?;
